@@ -102,7 +102,7 @@ def prepare(h, goto_file, mangled, workdir):
         ["goto-instrument", "--ensure-one-backedge-per-target", out, out],
     ]
     for s in steps:
-        rc = _run(s, log, 600, 16)
+        rc = _run(s, log, 900, 48)
         if rc != 0:
             return None
     return out
@@ -154,6 +154,9 @@ def run_harness(h, goto_file, mangled, workdir, time_scale=1.0):
         cmd += ["--unwind", str(h.unwind), "--unwinding-assertions"]
     for us in h.unwindset:
         cmd += ["--unwindset", us]
+    if h.unwind > 0 and h.unwind < 40:
+        # `==` on [u64; 4] parms ids is a 32-byte memcmp loop in CBMC's library model
+        cmd += ["--unwindset", "memcmp.0:40"]
     if h.memmodel == "loop" and h.unwind > 0:
         w = h.mcw or h.unwind
         for lp in ("memcpy.0", "memmove.0", "memmove.1"):
